@@ -3033,8 +3033,8 @@ pub fn matrix_column_elements(&mut self, column_elements: &[&MatrixColumn]) -> S
       SetOp::Intersection => "∩".to_string(),
       SetOp::Difference => "∖".to_string(),
       SetOp::Complement => "∁".to_string(),
-      SetOp::Subset => "⊂".to_string(),
-      SetOp::Superset => "⊃".to_string(),
+      SetOp::Subset => "⊆".to_string(),
+      SetOp::Superset => "⊇".to_string(),
       SetOp::ProperSubset => "⊊".to_string(),
       SetOp::ProperSuperset => "⊋".to_string(),
       SetOp::ElementOf => "∈".to_string(),
@@ -3068,7 +3068,7 @@ pub fn matrix_column_elements(&mut self, column_elements: &[&MatrixColumn]) -> S
     match node {
       VecOp::MatMul => "**".to_string(),
       VecOp::Solve => "\\".to_string(),
-      VecOp::Cross => "×".to_string(),
+      VecOp::Cross => "⨯".to_string(),
       VecOp::Dot => "·".to_string(),
     }
   }
